@@ -135,11 +135,11 @@ CLAIMED['C10'] = dict(
 CLAIMED['C13'] = dict(
     text='PARTIAL. Lean 4 theorem (C13_exclude_is_filter): in positional mode with threshold 0, for every pair of values of any size and nesting and every list E of exclude_paths, '
          'the restricted result is exactly the unrestricted result minus the entries whose path has an excluded path on the way from the root (the entry itself included): nothing else '
-         'is dropped, added or changed; corollary: nothing below an excluded path is ever reported. Lemmas: literal exclusion is exact membership of the level path, anchored regexes '
+         'is dropped, added or changed; corollary: nothing below an excluded path is ever reported. The equation is proved once for every restriction of the exclusion kind (C13_restriction_is_filter: any skip test H, same keys and mode) and instantiated for anchored exclude_regex_paths ^<path>(\\[|$), alone or together with exclude_paths (C13_exclude_regex_is_filter, C13_nothing_below_matched). Lemmas: literal exclusion is exact membership of the level path, anchored regexes '
          'skip exactly at-or-below, an excluded child contributes nothing; Lean witnesses for include with non-string keys (F10a/c) and the threshold leak (F10b). ' + _DIFFMODEL.replace('over generated pairs', 'under the same path options over generated pairs') +
-         'For exclude_regex_paths, include_paths and the default alignment mode (dict-key paths) the filter equation is decided on the implementation for every existing path, singles and pairs.',
+         'For general regular expressions, include_paths and the default alignment mode (dict-key paths) the filter equation is decided on the implementation for every existing path, singles and pairs.',
     design='5/C13',
-    note='Trusted: Lean kernel; re module. Partial: the theorem covers exclude_paths in positional mode; regex / include / default alignment rest on evaluation. Known findings F10a, F10b, F10c.',
+    note='Trusted: Lean kernel; re module. Partial: the theorems cover exclude_paths and anchored exclude_regex_paths in positional mode; general regex / include / default alignment rest on evaluation. Known findings F10a, F10b, F10c.',
     technique='Lean 4 proof (mutual structural induction with a prefix invariant on entry paths) + differential correspondence; regex / include by evaluation over all existing paths')
 _DELTAMODEL = ('Model = Lean port of DeepDiff._to_delta_dict (payload from the diff tree, incl. opcodes with old/new slices), Delta.__add__ (the phases in the order '
                'regenerated from the source each run, tuple coercion and post-processing, path sorting and its fallback comparator, closest-element search) and '
